@@ -102,6 +102,34 @@ class Gen:
         return ["def", self.nid(), name or self.name("f"), self.body(0, False, True)]
 
 
+def handler_scheme(n, hi, last, rng):
+    """how the hi-th except clause of try `n` is spelled in the PLAIN source. Whatever the spelling, every clause stays reachable in Python: after a clause
+    `except Exception:` only classes that do not derive from Exception follow; BaseException and the bare clause only come last."""
+    scheme = n[1] % 4
+    if scheme == 1 and len(n[3]) >= 2:
+        if hi == 0:
+            return "except Exception:"
+        if last:
+            return rng.choice(["except KeyboardInterrupt:", "except SystemExit as exc:", "except BaseException:", "except:", "except GeneratorExit:"])
+        return ["except KeyboardInterrupt:", "except SystemExit:", "except GeneratorExit:"][(hi - 1) % 3]
+    if scheme == 2:
+        return ["except E%d as exc:" % hi, "except (E%d, KeyError):" % hi, "except E%d:" % hi][hi % 3] if not last else rng.choice(["except Exception as exc:", "except E%d:" % hi, "except:"])
+    return "except Exception:" if (last and rng.random() < 0.5) else "except E%d:" % hi
+
+
+def star_try(n):
+    """render this try with `except*` clauses (Python 3.11)? Decided from the skeleton alone so that every renderer agrees: every fifth try whose handler
+    bodies hold no return/break/continue (a syntax error inside except*)."""
+    if n[1] % 5 != 0 or not n[3]:
+        return False
+    for hid, hb in n[3]:
+        for st in hb:
+            for x in walk(st):
+                if x[0] in ("ret", "brk", "cont"):
+                    return False
+    return True
+
+
 def walk(node):
     """yield every node (statements, handlers and cases as pseudo-nodes ["handler", id, body] / ["case", id, body])"""
     yield node
@@ -160,6 +188,9 @@ class Render:
         self.lines.append("    " * indent + text)
         return len(self.lines)
 
+    def handler_head(self, n, hi, last):
+        return handler_scheme(n, hi, last, self.rng)
+
     def var(self):
         return self.rng.choice(["x", "y", "total", "acc", "item", "res"]) if self.cos else "x"
 
@@ -182,7 +213,12 @@ class Render:
             ln = self.emit(indent, text)
             self.loc[i] = (ln, ln)
         elif k == "ret":
-            ln = self.emit(indent, "return %s" % self.var() if (self.cos and self.rng.random() < 0.7) else "return")
+            # the returned expression is sometimes a comprehension (its implicit loop gets blocks of its own; the return must still end the block)
+            comp = {0: "[v0 for v0 in range(3)]", 1: "(v0 for v0 in range(2) if v0)", 2: "{v0: v0 for v0 in range(2)}", 3: "([v0 for v0 in range(2) if v0])"}.get(i % 9)
+            if comp is not None:
+                ln = self.emit(indent, "return %s" % comp)
+            else:
+                ln = self.emit(indent, "return %s" % self.var() if (self.cos and self.rng.random() < 0.7) else "return")
             self.loc[i] = (ln, ln)
         elif k == "brk":
             ln = self.emit(indent, "break")
@@ -216,7 +252,7 @@ class Render:
             self.body(n[2], indent + 1)
             for hi, (hid, hb) in enumerate(n[3]):
                 last = hi == len(n[3]) - 1
-                hstart = self.emit(indent, "except Exception:" if (last and self.rng.random() < 0.5) else "except E%d:" % hi)
+                hstart = self.emit(indent, ("except* E%d:" % hi) if star_try(n) else self.handler_head(n, hi, last))
                 self.body(hb, indent + 1)
                 self.loc[hid] = (hstart, len(self.lines))
             if n[4] is not None:
@@ -425,7 +461,7 @@ class Instr:
             self.emit(indent, "try:")
             self.body(n[2], indent + 1)
             for hi, (hid, hb) in enumerate(n[3]):
-                self.emit(indent, "except E%d:" % hi)
+                self.emit(indent, ("except* E%d:" if star_try(n) else "except E%d:") % hi)
                 self.emit(indent + 1, "_m(%d)" % hid)
                 self.body(hb, indent + 1)
             if n[4] is not None:
